@@ -50,6 +50,9 @@ def run(tier, rep, replay=None):
     lbad, _ = C.validate_lines(d, "Trace_Large", "Lines.cfg", llines)
     for i in lbad:
         ln = llines[i]
+        if ln["ev"] == "bigkey":
+            rep.violation("tkn20:big-key:%s:%s" % (ln["note"].split(":")[0], "panic" if ln["panics"] else "does-not-survive-marshalling"), {"observed": ln, "explain": "AttributeKey.MarshalBinary returned bytes that do not decode to the key (Trace_Large.tla)"})
+            continue
         if ln["ev"] == "longval":
             rep.violation("tkn20:long-values:len=%d:%s" % (ln["len"], "panic" if ln["panics"] else "wrong-answer"), {"observed": ln, "explain": "attribute values that differ only in their last character are not told apart (Trace_Large.tla)"})
             continue
